@@ -26,11 +26,11 @@ def proj_slice(s):
     return {'kind': 'int', 'start': [s], 'stop': [], 'step': []}
 
 
-def observe(text):
+def observe(text, parser=None):
     """Outcome of the real parser in the specification's vocabulary."""
     from pybufrkit.dataquery import NodePathParser
     try:
-        p = NodePathParser().parse(text)
+        p = (parser or NodePathParser()).parse(text)
     except Exception as e:
         return {'ok': False, 'err': type(e).__name__, 'subset': proj_slice(slice(None)), 'comps': [], 'printed': []}
     try:
@@ -142,6 +142,8 @@ def run(run):
         expected = sum(len(SIGMA) ** k for k in range(maxlen + 1))
         n = 0
         accepted = 0
+        from pybufrkit.dataquery import NodePathParser
+        shared = NodePathParser()
         for rec in res.iter_emitted():
             n += 1
             s = ''.join(rec['s'])
@@ -153,6 +155,13 @@ def run(run):
             bad = classify(s, spec, obs)
             if bad:
                 run.violation(bad[0], bad[1], {'string': s, 'spec': spec, 'impl': obs})
+            # the same string through ONE parser object that has parsed (and rejected) every earlier string: a parse is a
+            # function of the string alone (the automaton of the specification starts every parse from its initial state)
+            obs2 = observe(s, shared)
+            if obs2 != obs:
+                bad2 = classify(s, spec, obs2) or (('parse', 'differs-from-fresh-parser', ''), 'outcome %r differs from a fresh parser' % (obs2,))
+                run.violation(('shared-parser',) + tuple(bad2[0]), 'after %d earlier strings on the same parser object: %s' % (n - 1, bad2[1]),
+                              {'string': s, 'spec': spec, 'impl': obs2, 'note': 'needs the earlier strings on the same NodePathParser object'})
             if n in (200, 5000, 40000):
                 run.sample({'string': s, 'spec': spec, 'impl_ok': obs['ok']})
         if n != expected:
